@@ -87,8 +87,9 @@ class _StoreZip(Store):
 
         with zipfile.ZipFile(self._fp) as zf:
             for name in zf.namelist():
-                if strip_ext:
-                    name = name.replace(self._EXT_CONTAINED, '')
+                if strip_ext and self._EXT_CONTAINED and name.endswith(self._EXT_CONTAINED):
+                    # only the extension written after the label is removed: the label may contain the same text
+                    name = name[:-len(self._EXT_CONTAINED)]
                 # always use default decoder
                 yield config_map.default.label_decode(name)
 
